@@ -45,8 +45,9 @@ with the other packets, and the call that receives it raises its event before an
 otherwise unaffected (`C02_ack_changes_nothing`); apart from those packets and events the results are
 exactly the ones above, for ANY window sizes.  NOT a theorem: schedules in which the application holds
 packets back or delivers the two directions concurrently (the workflow is request/response; the `interop`
-family runs random interleavings on the real code), and omitted droppable packets at `handle_input`
-level (the omission theorems are the `drain`-level ones; C08 / C18).  Metadata items: `C02_publish_metadata_item`,
+family runs random interleavings on the real code).  Omitted droppable packets at `handle_input` level:
+`C02_publish_items_in_mask`, `C02_play_items_in_mask` (acknowledgements travel first and are kept; of the
+item packets ANY subset of the droppable ones is left out; exactly the delivered items are raised).  Metadata items: `C02_publish_metadata_item`,
 `C02_play_metadata_item` — exactly one metadata event carrying the sender's metadata, for every metadata
 the Rust type can hold except a frame rate that is a signalling NaN (which `as f64 as f32` quiets, as the
 hardware does): `C02_metadata_trip`, through `F64.toU32_ofU32` and `F64.toF32_ofF32`.  The model fixes one
@@ -68,6 +69,7 @@ import Rml.Lemmas.AckHop
 import Rml.Lemmas.Order
 import Rml.Lemmas.MetaOrder
 import Rml.Lemmas.AckFlow
+import Rml.Lemmas.AckDrop
 namespace Rml.C02
 open Rml Rml.Chunk Rml.Amf0 Rml.Msgs Rml.Sess
 
@@ -598,5 +600,24 @@ def isDemoResultIn : Option (List Srv.Res × Nat) → Bool
   | _ => false
 
 example : isDemoResultIn demoRunIn = true := by decide +kernel
+
+/-- media through `handle_input` with ANY subset of the droppable item packets omitted (Lemmas/AckDrop.lean) -/
+theorem C02_publish_items_in_mask {c c' : Cli.State} {v : Srv.State} {sid : Nat} {app key : Bytes} {mode : Srv.PublishMode} {A B : Acks}
+    (hr : PublishReadyP c v sid app key mode A B) (items : List Interop.Item) (ps : List Ser.Packet) (now : Nat) (mask : List Bool)
+    (hts : ∀ it ∈ items, it.ts < 4294967296) (hpub : Interop.publishAll c items = some (c', ps)) :
+    let kept := keepSel mask (ps.zip (items.map (Interop.Item.msg sid)))
+    ∃ (A' : Acks) (v' : Srv.State), A'.ok ∧
+      Srv.handleInput v now (A.bytes ++ wire kept) = (v', .ok (A'.outS ++ A.evS ++ (msgs kept).flatMap (Interop.evOf app key))) ∧
+      PublishReadyP c' v' sid app key mode [] (B ++ A') :=
+  AckDrop.publish_items_in_mask hr items ps now mask hts hpub
+
+theorem C02_play_items_in_mask {c : Cli.State} {v v' : Srv.State} {sid : Nat} {app key : Bytes} {A B : Acks}
+    (hr : PlayReadyP c v sid app key A B) (items : List Interop.Item) (ps : List Ser.Packet) (now : Nat) (mask : List Bool)
+    (hts : ∀ it ∈ items, it.ts < 4294967296) (hsend : Interop.sendAll v sid items = some (v', ps)) :
+    let kept := keepSel mask (ps.zip (items.map (Interop.Item.msg sid)))
+    ∃ (B' : Acks) (c' : Cli.State), B'.ok ∧
+      Cli.handleInput c now (B.bytes ++ wire kept) = (c', .ok (B'.outC ++ B.evC ++ (msgs kept).flatMap Interop.evOfC)) ∧
+      PlayReadyP c' v' sid app key (A ++ B') [] :=
+  AckDrop.play_items_in_mask hr items ps now mask hts hsend
 
 end Rml.C02
